@@ -149,7 +149,13 @@ def rdecl(d, is_arg):
     if is_arg and d['intent'] in ('in', 'out', 'inout'):
         attrs.append(f"intent({d['intent']})")
     dims = ''
-    if d['dims']:
+    if d.get('xdims'):      # expression bounds / assumed shape (C34, C39), see FMachine.HasX
+        def xb(lo, hi):
+            if hi['k'] == 'assumed':
+                return ':' if lo == NONE else f'{rx(lo)}:'
+            return rx(hi) if lo == NONE else f'{rx(lo)}:{rx(hi)}'
+        dims = '(' + ', '.join(xb(lo, hi) for lo, hi in d['xdims']) + ')'
+    elif d['dims']:
         dims = '(' + ', '.join(f'{lo}:{hi}' for lo, hi in d['dims']) + ')'
     init = ''
     if d['init'] != NONE and not is_arg:
